@@ -15,6 +15,7 @@ import (
 	"os/exec"
 	"strconv"
 	"strings"
+	"sync"
 	"time"
 
 	sdktrace "go.opentelemetry.io/otel/sdk/trace"
@@ -1232,6 +1233,117 @@ func main() {
 				seenT[t] = true
 			}
 			w.Extra["default_generator_spans"] = n
+		})
+	}
+
+	// concurrent starts on ONE provider with the default generator: G goroutines released by a barrier, children
+	// (NewSpanID) and roots (NewIDs) mixed; a duplicate span id, an invalid id or a panic is a violation
+	for round := 0; round < o.Count(2, 6); round++ {
+		G := 4 + 2*(round%3) // 4, 6, 8
+		total := o.Count(100000, 400000)
+		desc := map[string]any{"op": "default-generator-concurrent", "goroutines": G, "spans": total}
+		guard(desc, func() {
+			samplers := []sdktrace.Sampler{sdktrace.NeverSample(), sdktrace.AlwaysSample()}
+			tp := sdktrace.NewTracerProvider(sdktrace.WithSampler(samplers[round%2]))
+			tr := tp.Tracer("c09")
+			rootCtx, rootSpan := tr.Start(context.Background(), "shared-root")
+			type res struct {
+				sids    []trace.SpanID
+				tids    []trace.TraceID
+				problem string
+			}
+			out := make([]res, G)
+			seeds := make([]uint64, G)
+			for g := range seeds {
+				seeds[g] = r.U64()
+			}
+			var wg sync.WaitGroup
+			barrier := make(chan struct{})
+			for g := 0; g < G; g++ {
+				wg.Add(1)
+				go func(g int) {
+					defer wg.Done()
+					defer func() {
+						if e := recover(); e != nil {
+							out[g].problem = fmt.Sprintf("panic in a goroutine starting spans: %v", e)
+						}
+					}()
+					lr := vgen.NewRand(seeds[g])
+					ctx := rootCtx
+					<-barrier
+					// first half: nothing but children of the shared root, as tight as possible (maximal contention
+					// on the generator); second half: roots and deeper children mixed
+					tight := total / G / 2
+					out[g].sids = make([]trace.SpanID, 0, total/G+1)
+					for i := 0; i < tight; i++ {
+						_, sp := tr.Start(rootCtx, "s")
+						out[g].sids = append(out[g].sids, sp.SpanContext().SpanID())
+					}
+					for i := tight; i < total/G; i++ {
+						switch lr.Intn(10) {
+						case 0: // a root
+							ctx = context.Background()
+						case 1, 2: // back under the shared root
+							ctx = rootCtx
+						}
+						isRoot := ctx == context.Background()
+						c, sp := tr.Start(ctx, "s")
+						sc := sp.SpanContext()
+						out[g].sids = append(out[g].sids, sc.SpanID())
+						if isRoot {
+							out[g].tids = append(out[g].tids, sc.TraceID())
+						}
+						sp.End()
+						if lr.Intn(4) != 0 {
+							ctx = c
+						}
+					}
+				}(g)
+			}
+			close(barrier)
+			wg.Wait()
+			rootSpan.End()
+			_ = tp.Shutdown(context.Background())
+			seenS := map[trace.SpanID]bool{rootSpan.SpanContext().SpanID(): true}
+			seenT := map[trace.TraceID]bool{rootSpan.SpanContext().TraceID(): true}
+			dupS, dupT, n := 0, 0, 0
+			var a, b []string
+			for g := range out {
+				if out[g].problem != "" {
+					w.Violation(out[g].problem, desc)
+				}
+				for i, sid := range out[g].sids {
+					n++
+					if !sid.IsValid() {
+						w.Violation("default generator under concurrent starts: invalid (zero) span id", desc)
+					}
+					if seenS[sid] {
+						dupS++
+					}
+					seenS[sid] = true
+					if i < 1200/G { // the first ids of every goroutine (drawn at the same time) go to Coq as well
+						a = append(a, vgen.Hx(sid[:]))
+					}
+				}
+				for i, tid := range out[g].tids {
+					if seenT[tid] {
+						dupT++
+					}
+					seenT[tid] = true
+					if i < 200/G {
+						b = append(b, vgen.Hx(tid[:]))
+					}
+				}
+			}
+			desc["started"], desc["duplicate_span_ids"], desc["duplicate_root_trace_ids"] = n, dupS, dupT
+			if dupS > 0 {
+				w.Violation(fmt.Sprintf("default generator under concurrent starts: %d duplicate span ids among %d spans of one process", dupS, n), desc)
+			}
+			if dupT > 0 {
+				w.Violation(fmt.Sprintf("default generator under concurrent starts: %d roots share a trace id", dupT), desc)
+			}
+			w.Tally("default-generator-concurrent")
+			w.Add(vgen.App("CUnique", vgen.List(a), vgen.List(b)), desc, "default-generator-concurrent", true)
 		})
 	}
 
